@@ -68,6 +68,7 @@ type scenOut struct {
 	Steps    int
 	Blocked  int
 	Features map[string]int
+	Conc     string // the run as a case for coq/ConcCheck.v (rows scenario)
 }
 
 func (o *scenOut) viol(p, f string, a ...interface{}) {
@@ -308,8 +309,10 @@ func runRows(cfg rowsCfg, ch func(int, []int) int, grace time.Duration) *scenOut
 	}
 	var seenMu sync.Mutex
 	var seens []seen
+	keptOff := map[int]uint32{}
+	var keptMu sync.Mutex
 	for i, w := range cfg.writers {
-		w := w
+		i, w := i, w
 		s.Go(i, func() {
 			c.Query(func(txn *column.Txn) error {
 				for _, off := range w.rows {
@@ -338,12 +341,17 @@ func runRows(cfg rowsCfg, ch func(int, []int) int, grace time.Duration) *scenOut
 					txn.DeleteAt(markRow)
 				}
 				if w.keep {
-					txn.Insert(func(r column.Row) error {
+					off, err := txn.Insert(func(r column.Row) error {
 						r.SetInt64("a", 0)
 						r.SetInt64("b", 100)
 						r.SetInt64("m", 0)
 						return r.SetRecord("rec", &ctr{})
 					})
+					if err == nil {
+						keptMu.Lock()
+						keptOff[i] = off
+						keptMu.Unlock()
+					}
 				}
 				if w.abort {
 					return errAbort
@@ -401,6 +409,9 @@ func runRows(cfg rowsCfg, ch func(int, []int) int, grace time.Duration) *scenOut
 	}
 	for _, p := range s.panics {
 		out.viol("C18", "panic: %s", p)
+	}
+	if len(s.panics) == 0 {
+		out.Conc = concCase(c, cfg, keptOff, s.Trace)
 	}
 	// C10: no torn row
 	for _, sn := range seens {
@@ -1225,4 +1236,126 @@ func runDDL(cfgSeed uint64, ch func(int, []int) int, grace time.Duration) *scenO
 		})
 	}
 	return out
+}
+
+
+// concCase renders a finished run of the rows scenario for coq/ConcCheck.v conc_check: the seed
+// transaction, every committing writer's transaction as the API queued it, the order in which the
+// threads acquired the block latches, and what the collection shows afterwards
+func concCase(c *column.Collection, cfg rowsCfg, kept map[int]uint32, trace []TraceStep) string {
+	u := func(v int64) string { return fmt.Sprintf("(V8 %d)", uint64(v)) }
+	be := func(v int64) string {
+		b, _ := (&ctr{N: v}).MarshalBinary()
+		return "(VB " + coqBytes(b) + ")"
+	}
+	type bufs struct {
+		cols [7][]string
+		row  []string
+	}
+	render := func(b *bufs) string {
+		var cs []string
+		for id := 1; id <= 6; id++ {
+			if len(b.cols[id]) > 0 {
+				cs = append(cs, fmt.Sprintf("(%d, [%s])", id, strings.Join(b.cols[id], "; ")))
+			}
+		}
+		return fmt.Sprintf("(mk [%s] [%s])", strings.Join(cs, "; "), strings.Join(b.row, "; "))
+	}
+	op := func(k string, off uint32, v string) string { return fmt.Sprintf("mkop %s %d %s", k, off, v) }
+	seed := &bufs{}
+	for _, off := range cfg.seeded() {
+		if off == virginRow {
+			continue
+		}
+		seed.row = append(seed.row, op("KInsert", off, "V0"))
+		seed.cols[1] = append(seed.cols[1], op("KPut", off, u(0)))
+		seed.cols[2] = append(seed.cols[2], op("KPut", off, u(100)))
+		seed.cols[3] = append(seed.cols[3], op("KPut", off, u(0)))
+		seed.cols[4] = append(seed.cols[4], op("KPut", off, be(0)))
+	}
+	var ws []string
+	watch := append([]uint32(nil), cfg.seeded()...)
+	for i, w := range cfg.writers {
+		if w.abort {
+			continue
+		}
+		b := &bufs{}
+		for _, off := range w.rows {
+			b.cols[5] = append(b.cols[5], op("KPut", off, u(w.d)))
+			if w.d%2 == 1 {
+				b.cols[6] = append(b.cols[6], op("KPut", off, "V0"))
+			} else {
+				b.cols[6] = append(b.cols[6], op("KDelete", off, "V0"))
+			}
+			k := "KMerge"
+			vb := -w.d
+			if w.set {
+				k, vb = "KPut", initOf(off).b-w.d
+			}
+			b.cols[1] = append(b.cols[1], op(k, off, u(w.d)))
+			b.cols[2] = append(b.cols[2], op(k, off, u(vb)))
+			b.cols[3] = append(b.cols[3], op(k, off, u(w.d)))
+			if off != virginRow {
+				b.cols[4] = append(b.cols[4], op(k, off, be(w.d)))
+			}
+		}
+		if w.del {
+			b.row = append(b.row, op("KDelete", markRow, "V0"))
+		}
+		if w.keep {
+			off, ok := kept[i]
+			if !ok {
+				return "" // the insert failed: not a case
+			}
+			b.row = append(b.row, op("KInsert", off, "V0"))
+			b.cols[1] = append(b.cols[1], op("KPut", off, u(0)))
+			b.cols[2] = append(b.cols[2], op("KPut", off, u(100)))
+			b.cols[3] = append(b.cols[3], op("KPut", off, u(0)))
+			b.cols[4] = append(b.cols[4], op("KPut", off, be(0)))
+			watch = append(watch, off)
+		}
+		ws = append(ws, fmt.Sprintf("(%d%%nat, %s)", i, render(b)))
+	}
+	var order []string
+	for _, st := range trace {
+		if st.To == "w.latched" && st.Tid < len(cfg.writers) && !cfg.writers[st.Tid].abort {
+			order = append(order, fmt.Sprintf("(%d%%nat, %d)", st.Tid, st.ToChunk))
+		}
+	}
+	var obs []string
+	seen := map[uint32]bool{}
+	for _, off := range watch {
+		if seen[off] {
+			continue
+		}
+		seen[off] = true
+		fillWords := c.VerifFill()
+		live := int(off>>6) < len(fillWords) && fillWords[off>>6]&(1<<(off&63)) != 0
+		var vals []string
+		c.QueryAt(off, func(r column.Row) error {
+			for id, name := range []string{"", "a", "b", "m", "", "g"} {
+				if name == "" {
+					continue
+				}
+				if v, ok := r.Int64(name); ok {
+					vals = append(vals, fmt.Sprintf("(%d, Some %s)", id, u(v)))
+				} else {
+					vals = append(vals, fmt.Sprintf("(%d, None)", id))
+				}
+			}
+			if v, ok := r.Record("rec"); ok {
+				vals = append(vals, fmt.Sprintf("(4, Some %s)", be(v.(*ctr).N)))
+			} else {
+				vals = append(vals, "(4, None)")
+			}
+			if r.Bool("h") {
+				vals = append(vals, "(6, Some V0)")
+			} else {
+				vals = append(vals, "(6, None)")
+			}
+			return nil
+		})
+		obs = append(obs, fmt.Sprintf("(%d, %v, [%s])", off, live, strings.Join(vals, "; ")))
+	}
+	return fmt.Sprintf("(%s, [%s], [%s], [%s], %d)", render(seed), strings.Join(ws, "; "), strings.Join(order, "; "), strings.Join(obs, "; "), c.Count())
 }
